@@ -1,6 +1,6 @@
 #!/bin/bash
 # benign_table.sh: behaviour-preserving edits must not raise an alarm. For every patch under
-# /verif/seeded/_benign/Cnn/k/ run the quick check of Cnn (and C06) on a scratch copy.
+# /verif/benign/Cnn_k/ run the quick check of Cnn (and of C06; BENIGN_ALSO= to skip it) on a scratch copy.
 IN=${IN:-/verif/benign}
 cd $IN
 for v in $(ls -d C*_[0-9] 2>/dev/null); do
@@ -10,7 +10,7 @@ for v in $(ls -d C*_[0-9] 2>/dev/null); do
   cp -r /repo/. $WT/; ( cd $WT && git checkout -q -- . && git clean -fdq )
   if ! git -C $WT apply $IN/$v/patch.diff 2>/dev/null; then echo "$v APPLY-FAILED"; rm -rf $WT; continue; fi
   res=""
-  for q in $p C06; do
+  for q in $p ${BENIGN_ALSO-C06}; do
     out=$(GOVC_REPLAY_DIR=$WT/.replays timeout 900 /verif/bin/govc check --property $q --tier quick --no-evidence --repo $WT 2>&1)
     n=$(echo "$out" | grep -c "^VIOLATION")
     first=$(echo "$out" | grep -E "^  FAIL|^TOOL-LIMIT" | head -2 | cut -c1-150 | tr '\n' ';')
